@@ -81,7 +81,7 @@ CHECKS = {
     "C74": dict(
         category="exploration",
         text="Random circuits over the MBQC-supported gate set on 1-2 logical wires are converted with the real transforms (graph decomposition to the MBQC gate set, then graph-state preparation + parametric mid-circuit measurements + online byproduct corrections) and executed shot by shot on default.qubit with EVERY mid-circuit measurement outcome of the measurement pattern forced by the simulator (all zeros, all ones, alternating, always the rarer outcome, or sampled histories; 4-40 forced measurements per shot). At the terminal draw the offered distribution, marginalised onto the logical output wires, must equal the original circuit's Born distribution (independent reference simulator) for every forced history, and the returned sample must be the drawn basis state read on the output wires. The Clifford commutation table is enumerated exhaustively over all Pauli frames as a side check.",
-        note="Histories are seeded samples plus adversarial extremes, not the full 2^k space. Wire positions in the offered distribution are taken from QuantumScript.map_to_standard_wires(). Offline byproduct correction (get_byproduct_corrections) is not driven. commute_clifford_op is a pure function: its exhaustive table check is not what the technique contributes and is reported as a side check.",
+        note="Histories are seeded samples plus adversarial extremes, not the full 2^k space. Wire positions in the offered distribution are taken from QuantumScript.map_to_standard_wires(). Offline byproduct correction (get_byproduct_corrections) is driven on forced histories against an independent frame propagation (6 % of runs), not by executing an uncorrected pattern on a device. commute_clifford_op is a pure function: its exhaustive table check is not what the technique contributes and is reported as a side check.",
         technique="deterministic simulation: scripted RNG seam forcing every measurement outcome of the MBQC pattern, reference = original circuit on an independent simulator",
         design="4/C74",
     ),
